@@ -50,11 +50,13 @@ const (
 	kCondBroadcast
 	kMapOp
 	kNote
+	kTryLock
+	kTryRLock
 	nKinds
 )
 
 var kindNames = [...]string{"start", "exit", "yield", "stamp", "choose", "lock", "unlock", "rwcommit", "rwacquire", "rwunlock",
-	"rlock", "runlock", "poolget", "poolput", "onceenter", "oncedone", "wgadd", "wgwait", "condwait", "condsignal", "condbroadcast", "mapop", "note"}
+	"rlock", "runlock", "poolget", "poolput", "onceenter", "oncedone", "wgadd", "wgwait", "condwait", "condsignal", "condbroadcast", "mapop", "note", "trylock", "tryrlock"}
 
 func (k kind) String() string { return kindNames[k] }
 
@@ -407,6 +409,22 @@ func (s *Sim) apply(t *task) resp {
 		l := s.lock(r.p)
 		l.held, l.holder = true, t.id
 		obj = l.idx
+	case kTryLock:
+		// succeeds iff a Lock would be granted at this instant (a Mutex, or an RWMutex with no reader, writer or pending writer)
+		l := s.lock(r.p)
+		obj = l.idx
+		if !l.held && !l.commit && l.readers == 0 {
+			l.held, l.holder = true, t.id
+			out.n = 1
+		}
+	case kTryRLock:
+		l := s.lock(r.p)
+		obj = l.idx
+		if !l.held && !l.commit {
+			l.readers++
+			l.rholders[t.id]++
+			out.n = 1
+		}
 	case kUnlock:
 		l := s.lock(r.p)
 		obj = l.idx
@@ -490,7 +508,7 @@ func (s *Sim) apply(t *task) resp {
 			break
 		}
 		for _, it := range p.items {
-			if it.x == r.x {
+			if sameObject(it.x, r.x) {
 				s.res.PoolDouble++
 				break
 			}
@@ -548,6 +566,15 @@ func (s *Sim) apply(t *task) resp {
 		s.res.Trace = append(s.res.Trace, fmt.Sprintf("%d t%d %s #%d", s.seq, t.id, r.k, obj))
 	}
 	return out
+}
+
+// sameObject reports whether two values put into a pool are the same object (the second word of the interface value is
+// compared: the pointer itself for pointer-shaped values, the address of the boxed copy otherwise). It never compares
+// the values themselves: a pool may hold slices or other uncomparable values.
+func sameObject(a, b interface{}) bool {
+	pa := (*[2]unsafe.Pointer)(unsafe.Pointer(&a))
+	pb := (*[2]unsafe.Pointer)(unsafe.Pointer(&b))
+	return pa[0] == pb[0] && pa[1] == pb[1]
 }
 
 func (s *Sim) maybeFlush() {
